@@ -110,7 +110,8 @@ def vk_cases(draw, nmax=28):
     return {"kind": "vk", "nx": nx, "ncol": draw(st.integers(1, min(4, nx))), "ps": ps, "r0": draw(st.one_of(gen.logfloat(0.05, 1.0), gen.logfloat(1e-3, 100.0))),
             "L0": ps * draw(RATIO), "seed": draw(st.integers(0, 2**31)), "c": draw(st.floats(-50, 50)),
             "sib": draw(st.sampled_from([None, None, "r0,L0", "r0", "L0", "ps,r0,L0"])), "sibk": draw(st.sampled_from([2.0, 0.5, 4.0, 1.25])),
-            "size_as": draw(st.sampled_from([None, None, None, "int64", "uint8", "uint16", "int8", "uint32"]))}
+            "size_as": draw(st.sampled_from([None, None, None, "int64", "uint8", "uint16", "int8", "uint32"])),
+            "retune": draw(st.sampled_from([None, None, None, (2.0, 1.0), (1.0, 0.5), (0.5, 2.0)]))}
 
 
 @st.composite
@@ -122,7 +123,8 @@ def fried_cases(draw, nmax=20):
     return {"kind": "fried", "nx": nx, "factor": draw(st.integers(1, 4)), "ps": ps, "r0": draw(st.one_of(gen.logfloat(0.05, 1.0), gen.logfloat(1e-3, 100.0))),
             "L0": ps * draw(RATIO), "seed": draw(st.integers(0, 2**31)), "c": draw(st.floats(-50, 50)),
             "sib": draw(st.sampled_from([None, None, "r0,L0", "r0", "L0", "ps,r0,L0"])), "sibk": draw(st.sampled_from([2.0, 0.5, 4.0, 1.25])),
-            "size_as": draw(st.sampled_from([None, None, None, "int64", "uint8", "uint16", "int8", "uint32"]))}
+            "size_as": draw(st.sampled_from([None, None, None, "int64", "uint8", "uint16", "int8", "uint32"])),
+            "retune": draw(st.sampled_from([None, None, None, (2.0, 1.0), (1.0, 0.5), (0.5, 2.0)]))}
 
 
 def body(ctx, p):
@@ -131,7 +133,20 @@ def body(ctx, p):
     rng = Scripted()
     sibling_first(ctx, kind, p)
     try:
-        scr = make(kind, p, rng)
+        if p.get("retune"):
+            # seeing / outer scale retuned on ONE existing screen, geometry unchanged: the public building blocks are re-run
+            # (make_covmats -> makeAMatrix -> makeBMatrix) and the rows produced from then on follow the NEW parameters
+            kr, kl = p["retune"]
+            scr = make(kind, dict(p, r0=p["r0"] * kr, L0=p["L0"] * kl), rng)
+            scr.r0, scr.L0 = p["r0"], p["L0"]
+            with warnings.catch_warnings():
+                warnings.simplefilter("ignore")
+                scr.make_covmats()
+                scr.makeAMatrix()
+                scr.makeBMatrix()
+            ctx.classes["retuned_on_one_object"] += 1
+        else:
+            scr = make(kind, p, rng)
     except (linalg.LinAlgError, np.linalg.LinAlgError) as e:
         refused(ctx, p)
         return
